@@ -6,7 +6,7 @@ Import ListNotations.
 
 (* whatever happened before (a graceful shutdown included), shutdown(kill_workers=True) sets both flags *)
 Theorem C06_forced_flag_always_set :
-  forall p, user p = true -> kill (step p (ShutdownCall true)) = true /\ shut (step p (ShutdownCall true)) = true.
+  forall p, user p = true -> sub p = None -> kill (step p (ShutdownCall true)) = true /\ shut (step p (ShutdownCall true)) = true.
 Proof. exact forced_flag_always_set. Qed.
 Print Assumptions C06_forced_flag_always_set.
 
@@ -15,14 +15,14 @@ Print Assumptions C06_forced_flag_always_set.
    ShutdownExecutorError, no worker registered; no step of any worker is needed *)
 Theorem C06_forced_shutdown_is_prompt :
   forall u gs mx pr pn su okc fb fs rf,
-    let p := mkp u true false true gs mx pr pn su okc fb fs rf MLoop in
+    let p := mkp u true false true gs mx pr pn su okc fb fs rf MLoop None in
     let q := run forced_steps p in
     mgr q = MDone /\ pending q = 0 /\ procs q = [] /\ failS q = fs + pn /\ ok q = okc /\ failB q = fb.
 Proof. exact forced_shutdown_is_prompt. Qed.
 Print Assumptions C06_forced_shutdown_is_prompt.
 
 Theorem C06_nothing_accepted_after_the_call :
-  forall p, user p = true -> shut p = true ->
+  forall p, user p = true -> sub p = None -> shut p = true ->
     pending (step p Submit) = pending p /\ refused (step p Submit) = S (refused p) /\ submitted (step p Submit) = submitted p.
 Proof. exact shut_down_pool_refuses. Qed.
 Print Assumptions C06_nothing_accepted_after_the_call.
